@@ -106,3 +106,9 @@ Proof. repeat split; reflexivity. Qed.
 From SymfcG Require Import ShapesApi SkelApi.
 Theorem c03_facade_in_force : ShapesApi_as_recorded = true /\ SkelApi_as_recorded = true.
 Proof. repeat split; reflexivity. Qed.
+
+(** The rest of the code path of this property's statement (the solvers that assemble the returned force constants from the basis, and the symmetry search that supplies the translation table) is the recorded source: whole-function / skeleton match,
+    regenerated on every run. *)
+From SymfcG Require Import ShapesSolvers SkelSolvers ShapesSpg ShapesReps SkelSpg.
+Theorem c03_code_path_in_force : ShapesSolvers_as_recorded = true /\ SkelSolvers_as_recorded = true /\ ShapesSpg_as_recorded = true /\ ShapesReps_as_recorded = true /\ SkelSpg_as_recorded = true.
+Proof. repeat split; reflexivity. Qed.
